@@ -107,6 +107,7 @@ class RunBundler:
         self._sequence_counters_copy: dict[Any, int] = dict()  # for if we redo data-points  # noqa: C408
         self._bundled_streams: set[Any] = set()  # streams filled by create/save bundles (re-taken on rewind)
         self._monitor_params: dict[Subscribable, tuple[Callback, dict]] = dict()  # noqa: C408  # cache of {obj: (cb, kwargs)}
+        self._monitors_suspended = False  # True between suspend_monitors() and restore_monitors()
         # a cache of stream_resource uid to the data_keys that stream_resource collects for
         self._stream_resource_data_keys: dict[str, Iterable[str]] = dict()  # noqa: C408
         self.run_is_open = False
@@ -635,10 +636,18 @@ class RunBundler:
         self.reset_checkpoint_state()
 
     async def suspend_monitors(self):
+        if self._monitors_suspended:
+            return
+        self._monitors_suspended = True
         for obj, (cb, kwargs) in self._monitor_params.items():  # noqa: B007
             obj.clear_sub(cb)
 
     async def restore_monitors(self):
+        # Only re-subscribe what suspend_monitors() removed: subscribing a callback
+        # that is still installed makes the device call it twice per update.
+        if not self._monitors_suspended:
+            return
+        self._monitors_suspended = False
         for obj, (cb, kwargs) in self._monitor_params.items():
             obj.subscribe(cb, **kwargs)
 
